@@ -253,6 +253,7 @@ type harness struct {
 	mice *hx.Stream
 	pads *hx.Stream
 	kids *hx.Stream
+	hist *hx.Stream
 }
 
 func (h *harness) pick(n int) int { return h.cfg.Rand.Intn(n) }
@@ -944,6 +945,352 @@ func (h *harness) genChild() {
 	}
 }
 
+// ---------- histories: ONE emulator, many steps ----------
+
+// hstep is one step in the life of one Model: a piece of child output (parsed by
+// the real ansi.Parser, every sequence through the unmodified Model.update) or
+// an event handed to Model.Update.
+type hstep struct {
+	out []piece
+	ev  vaxis.Event
+}
+
+func evDesc(ev vaxis.Event) (string, interface{}) {
+	switch e := ev.(type) {
+	case vaxis.Key:
+		return "(TKey " + keyTerm(e) + ")", map[string]interface{}{"key": keyJSON(e)}
+	case vaxis.Mouse:
+		return "(TMouse " + mouseTerm(e) + ")", map[string]interface{}{"mouse": mouseJSON(e)}
+	case vaxis.PasteStartEvent:
+		return "TPasteStart", "PasteStartEvent"
+	case vaxis.PasteEndEvent:
+		return "TPasteEnd", "PasteEndEvent"
+	}
+	return "TOther", fmt.Sprintf("%T", ev)
+}
+
+func outStep(ps ...piece) hstep { return hstep{out: ps} }
+func evStep(ev vaxis.Event) hstep { return hstep{ev: ev} }
+func evSteps(evs ...vaxis.Event) []hstep {
+	out := make([]hstep, len(evs))
+	for i, ev := range evs {
+		out[i] = evStep(ev)
+	}
+	return out
+}
+
+// addHist drives ONE emulator (80x24, no child process) through the steps: the
+// state that survives between Update calls and between pieces of child output is
+// the emulator's own.  After every event the bytes written to the PTY stand-in
+// are taken and re-read by the host Vaxis; at the end DECRQM is asked for the
+// eight input modes.
+func (h *harness) addHist(steps []hstep, tags ...string) {
+	t, oc, msg := term.VerifNewTerm(80, 24)
+	if oc != term.VerifOK {
+		panic("VerifNewTerm: " + msg)
+	}
+	defer t.Close()
+	var jsSteps []interface{}
+	js := map[string]interface{}{}
+	feed := func(b []byte) {
+		for _, seq := range parseChild(b) {
+			if oc, msg := t.Feed(seq); oc != term.VerifOK {
+				h.host.direct = append(h.host.direct, hx.DirectViolation{Class: "child-output-outcome", Case: js,
+					What: fmt.Sprintf("Model.update ended with outcome %d (%s) on %q", oc, msg, b)})
+			}
+		}
+	}
+	var obs []string
+	events, outsBetween, sawEvent, pendingOut, survives := 0, 0, false, false, false
+	anyWritten, anySilent := false, false
+	for _, st := range steps {
+		if st.ev == nil {
+			var out []byte
+			var reqs []creq
+			for _, p := range st.out {
+				out = append(out, p.bytes...)
+				if p.req != nil {
+					reqs = append(reqs, *p.req)
+				}
+			}
+			feed(out)
+			t.Replies() // answers to the child's own queries are not part of the observation
+			obs = append(obs, "OOut "+reqsTerm(reqs)+" "+hx.Bytes(out))
+			jsSteps = append(jsSteps, map[string]interface{}{"child_output": fmt.Sprintf("%q", out), "requests": reqsJSON(reqs)})
+			outsBetween++
+			if sawEvent {
+				pendingOut = true
+			}
+			continue
+		}
+		evTerm, evJS := evDesc(st.ev)
+		panicked, pmsg := hx.Catch(func() { t.Model().Update(st.ev) })
+		if panicked {
+			h.host.direct = append(h.host.direct, hx.DirectViolation{Class: "update-panic", Case: evJS, What: pmsg})
+		}
+		written := t.Replies()
+		_, isKey := st.ev.(vaxis.Key)
+		reread := (isKey || len(written) > 0) && !strings.HasPrefix(string(written), "\x1b[M")
+		pause := len(written) > 0 && written[len(written)-1] == 0x1b
+		evsTerm := hx.None
+		var evsJS interface{}
+		if reread {
+			evs, ok := h.host.read(written, pause)
+			if !ok {
+				h.host.direct = append(h.host.direct, hx.DirectViolation{Class: "host-hang", Case: evJS,
+					What: fmt.Sprintf("the host Vaxis did not deliver the sentinel after %q", written)})
+			}
+			if strings.Contains(string(written), "\x1b[200~") {
+				h.host.read([]byte("\x1b[201~"), false) // leave paste mode again
+			}
+			evsTerm = hx.Some(eventsTerm(evs))
+			evsJS = eventsJSON(evs)
+		}
+		obs = append(obs, fmt.Sprintf("OEv %s %s %s %s", evTerm, hx.Bool(pause), hx.Bytes(written), evsTerm))
+		jsSteps = append(jsSteps, map[string]interface{}{"event": evJS, "written": fmt.Sprintf("%q", written), "events": evsJS})
+		events++
+		if pendingOut {
+			survives = true // an event, then child output, then another event: state had to survive
+		}
+		sawEvent = true
+		if len(written) > 0 {
+			anyWritten = true
+		} else {
+			anySilent = true
+		}
+	}
+	var q []byte
+	for _, n := range reportedModes {
+		q = append(q, fmt.Sprintf("\x1b[?%d$p", n)...)
+	}
+	feed(q)
+	report := t.Replies()
+	js["steps"] = jsSteps
+	js["decrqm_replies_at_end"] = fmt.Sprintf("%q", report)
+	termS := hx.Tuple(hx.List(obs), hx.Bytes(report))
+	tags = append(tags, fmt.Sprintf("events-%d", (events/4)*4))
+	if anyWritten && anySilent {
+		tags = append(tags, "written-and-silent")
+	}
+	h.hist.Add(termS, js, survives, tags...)
+}
+
+// the events whose forwarding depends on mode n: a whole gesture (a complete
+// paste with a pasted key; press, drag, release ...)
+func (h *harness) gestureFor(n int) []vaxis.Event {
+	col, row := h.pick(200), h.pick(60)
+	btn := buttons[h.pick(3)]
+	pasted := vaxis.Key{Keycode: rune('a' + h.pick(26)), EventType: vaxis.EventPaste}
+	pasted.Text = string(pasted.Keycode)
+	switch n {
+	case 2004:
+		if h.pick(3) == 0 {
+			return []vaxis.Event{vaxis.PasteStartEvent{}, pasted, vaxis.Key{Keycode: vaxis.KeyEnter, EventType: vaxis.EventPaste}, vaxis.PasteEndEvent{}}
+		}
+		return []vaxis.Event{vaxis.PasteStartEvent{}, pasted, vaxis.PasteEndEvent{}}
+	case 1, '=':
+		c := []rune{vaxis.KeyUp, vaxis.KeyDown, vaxis.KeyRight, vaxis.KeyLeft, vaxis.KeyEnd, vaxis.KeyHome}[h.pick(6)]
+		other := []rune{vaxis.KeyInsert, vaxis.KeyPgUp, vaxis.KeyF05, vaxis.KeyKeyPad5, vaxis.KeyEnter, vaxis.KeyTab}[h.pick(6)]
+		return []vaxis.Event{vaxis.Key{Keycode: c}, vaxis.Key{Keycode: other}, vaxis.Key{Keycode: c, Modifiers: vaxis.ModifierMask(1 + h.pick(7))}}
+	case 1000, 1006:
+		return []vaxis.Event{vaxis.Mouse{Button: btn, Col: col, Row: row, EventType: vaxis.EventPress},
+			vaxis.Mouse{Button: btn, Col: col, Row: row, EventType: vaxis.EventRelease}}
+	case 1002:
+		return []vaxis.Event{vaxis.Mouse{Button: btn, Col: col, Row: row, EventType: vaxis.EventPress},
+			vaxis.Mouse{Button: btn, Col: col + 1, Row: row, EventType: vaxis.EventMotion},
+			vaxis.Mouse{Button: btn, Col: col + 1, Row: row, EventType: vaxis.EventRelease}}
+	case 1003:
+		return []vaxis.Event{vaxis.Mouse{Button: vaxis.MouseNoButton, Col: col, Row: row, EventType: vaxis.EventMotion},
+			vaxis.Mouse{Button: btn, Col: col, Row: row, EventType: vaxis.EventPress}}
+	default: // 1007, 1049, 47, 1047: the wheel
+		return []vaxis.Event{vaxis.Mouse{Button: vaxis.MouseWheelUp, Col: col, Row: row, EventType: vaxis.EventPress},
+			vaxis.Mouse{Button: vaxis.MouseWheelDown, Col: col, Row: row, EventType: vaxis.EventPress}}
+	}
+}
+
+// a control function that switches mode n ('=' stands for the keypad mode) on / off,
+// alone or in a parameter list with companions (any position)
+func (h *harness) switchMode(n int, on bool, how int) piece {
+	if n == '=' {
+		if on {
+			return h.req('=')
+		}
+		if how == 2 {
+			return h.req('c')
+		}
+		return h.req('>')
+	}
+	kind := byte('l')
+	if on {
+		kind = 'h'
+	}
+	switch how {
+	case 1: // in a list with companions
+		comp := h.subset([]int{1, 1000, 1002, 1003, 1006, 1007, 2004, 25, 7, 66, 12}, 25)
+		ns := []int{n}
+		for _, c := range comp {
+			if c != n {
+				ns = append(ns, c)
+			}
+		}
+		return h.req(kind, h.perm(ns)...)
+	case 2: // a full reset switches everything off
+		if !on {
+			return h.req('c')
+		}
+	}
+	return h.req(kind, n)
+}
+
+func (h *harness) genHist() {
+	thorough := h.cfg.Thorough()
+	modes := []int{2004, 1, '=', 1000, 1002, 1003, 1006, 1007, 1049}
+	reps := 2
+	if thorough {
+		reps = 12
+	}
+	// what makes the mode observable (a tracking mode for 1006, the alternate screen for 1007 ...)
+	prelude := func(n int) []piece {
+		var ps []piece
+		switch n {
+		case 1006:
+			ps = append(ps, h.req('h', []int{1000, 1002, 1003}[h.pick(3)]))
+		case 1000, 1002, 1003:
+			if h.pick(3) != 0 {
+				ps = append(ps, h.req('h', 1006))
+			}
+		case 1007:
+			ps = append(ps, h.req('h', 1049), h.req('l', 1007))
+		}
+		if h.pick(4) == 0 {
+			ps = append(ps, h.distractor())
+		}
+		return ps
+	}
+	for rep := 0; rep < reps; rep++ {
+		for _, n := range modes {
+			// A. the same gesture while the child switches the mode on, off, on, off ... on ONE emulator; the
+			//    mode is switched alone, in a parameter list, or off by a full reset
+			for how := 0; how < 3; how++ {
+				for first := 0; first < 2; first++ {
+					g := h.gestureFor(n)
+					var steps []hstep
+					if ps := prelude(n); len(ps) > 0 {
+						steps = append(steps, outStep(ps...))
+					}
+					on := first == 0
+					if !on {
+						steps = append(steps, evSteps(g...)...) // before the child said anything
+					}
+					for k := 3 + h.pick(3); k > 0; k-- {
+						ps := []piece{h.switchMode(n, on, how)}
+						if how == 2 && !on {
+							ps = append(ps, prelude(n)...) // a full reset also removed what made the mode observable
+						}
+						if h.pick(4) == 0 {
+							ps = append(ps, h.distractor())
+						}
+						steps = append(steps, outStep(ps...))
+						steps = append(steps, evSteps(g...)...)
+						if h.pick(3) == 0 {
+							steps = append(steps, evSteps(h.gestureFor(n)...)...)
+						}
+						on = !on
+					}
+					h.addHist(steps, "toggle", fmt.Sprintf("toggle-how-%d", how))
+				}
+			}
+			// B. the child changes its mind in the middle of a gesture (between paste start and paste end,
+			//    between press and release), in both directions
+			for first := 0; first < 2; first++ {
+				g := h.gestureFor(n)
+				on := first == 0
+				var steps []hstep
+				if ps := prelude(n); len(ps) > 0 {
+					steps = append(steps, outStep(ps...))
+				}
+				steps = append(steps, outStep(h.switchMode(n, on, 0)))
+				for round := 0; round < 2; round++ {
+					cut := 1 + h.pick(len(g)-1)
+					steps = append(steps, evSteps(g[:cut]...)...)
+					on = !on
+					steps = append(steps, outStep(h.switchMode(n, on, h.pick(2))))
+					steps = append(steps, evSteps(g[cut:]...)...)
+				}
+				steps = append(steps, evSteps(g...)...)
+				h.addHist(steps, "mid-gesture")
+			}
+		}
+	}
+	// C. random histories: a small pool of events handed to the emulator again and again while the child writes
+	//    mode-setting control functions (1-4 parameters from all pools), keypad switches, full resets, text and
+	//    other control functions in between
+	all := append(append([]int(nil), inputModes...), screenModes...)
+	pool := append(append(append([]int(nil), all...), inputModes...), otherModes...)
+	n := 350
+	if thorough {
+		n = 6000
+	}
+	for i := 0; i < n; i++ {
+		var evPool []vaxis.Event
+		for k := 2 + h.pick(3); k > 0; k-- {
+			evPool = append(evPool, h.gestureFor(append(modes, 1000, 2004, 2004)[h.pick(len(modes)+3)])...)
+		}
+		if h.pick(2) == 0 {
+			evPool = append(evPool, h.anyEvent())
+		}
+		var steps []hstep
+		for k := 3 + h.pick(5); k > 0; k-- {
+			var ps []piece
+			for j := 1 + h.pick(3); j > 0; j-- {
+				switch x := h.pick(20); {
+				case x < 12:
+					ns := make([]int, 1+h.pick(4))
+					for l := range ns {
+						ns[l] = pool[h.pick(len(pool))]
+					}
+					ps = append(ps, h.req([]byte{'h', 'h', 'h', 'l', 'l'}[h.pick(5)], ns...))
+				case x < 14:
+					ps = append(ps, h.req([]byte{'=', '>'}[h.pick(2)]))
+				case x == 14:
+					ps = append(ps, h.req('c'))
+				default:
+					ps = append(ps, h.distractor())
+				}
+			}
+			steps = append(steps, outStep(ps...))
+			for j := 1 + h.pick(3); j > 0; j-- {
+				steps = append(steps, evStep(evPool[h.pick(len(evPool))]))
+			}
+		}
+		h.addHist(steps, "random")
+	}
+	// D. corpus: a shell session.  readline switches bracketed paste on at the prompt and off before it runs a
+	//    command; a full-screen program takes the alternate screen, application cursor keys and the mouse and gives
+	//    them back; pastes, arrows and clicks arrive at every stage
+	paste := []vaxis.Event{vaxis.PasteStartEvent{}, vaxis.Key{Keycode: 'l', Text: "l", EventType: vaxis.EventPaste},
+		vaxis.Key{Keycode: 's', Text: "s", EventType: vaxis.EventPaste}, vaxis.PasteEndEvent{}}
+	click := []vaxis.Event{vaxis.Mouse{Button: vaxis.MouseLeftButton, Col: 3, Row: 4, EventType: vaxis.EventPress},
+		vaxis.Mouse{Button: vaxis.MouseLeftButton, Col: 3, Row: 4, EventType: vaxis.EventRelease}}
+	keys := []vaxis.Event{vaxis.Key{Keycode: vaxis.KeyUp}, vaxis.Key{Keycode: vaxis.KeyHome}, vaxis.Key{Keycode: 'q', Text: "q"}}
+	wheel := []vaxis.Event{vaxis.Mouse{Button: vaxis.MouseWheelUp, EventType: vaxis.EventPress}}
+	text := func(s string) piece { return piece{bytes: s} }
+	var steps []hstep
+	steps = append(steps, outStep(text("$ "), h.req('h', 2004)))
+	steps = append(steps, evSteps(append(append(append([]vaxis.Event(nil), paste...), keys...), click...)...)...)
+	steps = append(steps, outStep(text("\r\n"), h.req('l', 2004)))
+	steps = append(steps, evSteps(append(append([]vaxis.Event(nil), paste...), wheel...)...)...)
+	steps = append(steps, outStep(h.req('h', 1049), h.req('h', 1), h.req('='), h.req('h', 1000, 1002, 1006), h.req('h', 2004)))
+	steps = append(steps, evSteps(append(append(append(append([]vaxis.Event(nil), paste...), keys...), click...), wheel...)...)...)
+	steps = append(steps, outStep(h.req('l', 2004), h.req('l', 1006, 1002, 1000), h.req('>'), h.req('l', 1), h.req('l', 1049)))
+	steps = append(steps, evSteps(append(append(append(append([]vaxis.Event(nil), paste...), keys...), click...), wheel...)...)...)
+	steps = append(steps, outStep(text("$ "), h.req('h', 2004)))
+	steps = append(steps, evSteps(paste...)...)
+	steps = append(steps, outStep(h.req('c')))
+	steps = append(steps, evSteps(append(append([]vaxis.Event(nil), paste...), keys...)...)...)
+	h.addHist(steps, "corpus")
+}
+
 // ---------- generators ----------
 
 var specialKeys = []rune{vaxis.KeyUp, vaxis.KeyDown, vaxis.KeyRight, vaxis.KeyLeft, vaxis.KeyEnd, vaxis.KeyHome,
@@ -1227,6 +1574,8 @@ func main() {
 	h.pads.Known = "c13_keypad_known"
 	h.pads.KnownClass = "keypad-mode-ignored"
 	h.kids = hx.NewStream("child", "gen.GenKeys model.Keys model.Parser model.TermMouse model.TermKeys", "child_case", "c13_child_mismatches", "c13_child_violations")
+	h.hist = hx.NewStream("hist", "gen.GenKeys model.Keys model.Parser model.TermMouse model.TermKeys model.TermHist", "hist_case", "c13_hist_mismatches", "c13_hist_violations")
+	h.hist.ShardMax = 40
 	h.keys.ShardMax = 250
 	h.mice.ShardMax = 250
 	h.kids.ShardMax = 250
@@ -1234,6 +1583,7 @@ func main() {
 	h.genKeys()
 	h.genMouse()
 	h.genChild()
+	h.genHist()
 	ok := hx.WithTimeout(5*time.Second, h.host.vx.Close)
 	extra := map[string]interface{}{"host_reads": h.host.reads, "host_reads_after_pause": h.host.pauses, "host_closed": ok}
 	cfg.Write("C13", "key stream: every key of xtermKeymap x 8 modifier sets x DECCKM x DECKPAM exhaustively, every named key, printable ASCII x 8 modifier sets exhaustively, "+
@@ -1248,6 +1598,6 @@ func main() {
 		"random output with keypad switches, RIS, text, SM/RM/DECRQM and other control functions in between; then DECRQM for the eight input modes and one key / paste boundary / mouse event "+
 		"through Model.Update; the property is decided from the requests the generator put into the output (the child's last word on each mode), not from the emulator's mode state. "+
 		"non-trivial = key: Shift/Alt/Ctrl held, a special key or a non-default mode; "+
-		"mouse: something was written; child: a DECSET/DECRST with at least two parameters; distinct by the whole case",
-		[]*hx.Stream{h.pads, h.keys, h.mice, h.kids}, extra, h.host.direct)
+		"mouse: something was written; child: a DECSET/DECRST with at least two parameters; hist: an event, then child output, then another event on the same emulator; distinct by the whole case",
+		[]*hx.Stream{h.pads, h.keys, h.mice, h.kids, h.hist}, extra, h.host.direct)
 }
